@@ -344,6 +344,10 @@ def apply_combo(rng, case, frags):
             # refused otherwise
             o["nx_inter_sep"] = 0
             o["nx_sol"] = rng.choice((1, 2, 2, 3))  # calibrated: 1-2 mostly generate
+            if "revcur" in frags:
+                # with 3 the second X-point lies outside the first SOL surface and the
+                # request is refused: the guard that a sign option must not disturb
+                o["nx_sol"] = 3
     return case
 
 # a damaged stored input: one numeric field of the geqdsk text replaced by what equilibrium
